@@ -47,7 +47,12 @@ pub struct Model {
     pub dirty: bool,      // a write_all since the last flush call
     pub shutdown_sent: bool,
     pub seen_at_shutdown: usize, // accepted count when Shutdown was enqueued
-    pub faults_left: u8,
+    /// which write_all calls fail (by call number): fixed by the harness, because a failed write changes the
+    /// worker's control flow (path-selecting)
+    pub wfault: [bool; MAXL],
+    pub wcalls: usize,
+    /// how many flush calls may still fail: chosen by the solver at every flush
+    pub flush_budget: u8,
     pub y: usize,         // receiver operations so far (yield points)
     pub empties: usize,   // yield points of a try_recv that found the queue empty
     pub full_hits: usize, // offers that met a full queue
@@ -56,7 +61,7 @@ pub struct Model {
     pub sink_dropped: bool,
 }
 
-pub static mut M: Model = Model {
+pub const FRESH: Model = Model {
     cap: 0,
     lossy: false,
     nlines: 0,
@@ -78,7 +83,9 @@ pub static mut M: Model = Model {
     dirty: false,
     shutdown_sent: false,
     seen_at_shutdown: 0,
-    faults_left: 0,
+    wfault: [false; MAXL],
+    wcalls: 0,
+    flush_budget: 0,
     y: 0,
     empties: 0,
     full_hits: 0,
@@ -86,6 +93,7 @@ pub static mut M: Model = Model {
     rendezvous_ok: false,
     sink_dropped: false,
 };
+pub static mut M: Model = FRESH;
 pub static mut PRODUCER: [Option<NonBlocking>; 2] = [None, None];
 pub static mut GUARD: Option<v::VGuard> = None;
 pub static mut COUNTER: Option<ErrorCounter> = None;
@@ -94,10 +102,10 @@ fn m() -> &'static mut Model {
     unsafe { &mut M }
 }
 
-fn fault() -> bool {
+fn flush_fault() -> bool {
     let m = m();
-    if m.faults_left > 0 && kani::any::<bool>() {
-        m.faults_left -= 1;
+    if m.flush_budget > 0 && kani::any::<bool>() {
+        m.flush_budget -= 1;
         true
     } else {
         false
@@ -123,7 +131,9 @@ impl Write for Sink {
         assert!(buf[2] == m.line[idx][2]);
         m.seen += 1;
         m.dirty = true;
-        if fault() {
+        let k = m.wcalls;
+        m.wcalls += 1;
+        if m.wfault[k] {
             m.failed += 1;
             return Err(io::Error::from(io::ErrorKind::Other));
         }
@@ -134,7 +144,7 @@ impl Write for Sink {
         let m = m();
         m.flushes += 1;
         m.dirty = false;
-        if fault() {
+        if flush_fault() {
             m.flush_failed += 1;
             return Err(io::Error::from(io::ErrorKind::Other));
         }
@@ -180,7 +190,14 @@ fn next_op() {
             kani::assume(room);
         }
         let before = counter().dropped_lines();
-        let r = unsafe { PRODUCER[t].as_mut().unwrap().write(&line) };
+        // an explicit branch (not a symbolic index): both arms leave the same concrete channel state behind
+        let r = unsafe {
+            if t == 0 {
+                PRODUCER[0].as_mut().unwrap().write(&line)
+            } else {
+                PRODUCER[1].as_mut().unwrap().write(&line)
+            }
+        };
         let after = counter().dropped_lines();
         // `write` always reports the whole buffer as taken
         assert!(matches!(r, Ok(n) if n == LINE));
@@ -233,19 +250,20 @@ pub struct Outcome {
     pub swallowed: bool,
 }
 
-pub fn setup(nlines: usize, lossy: bool, vec: [u8; MAXY], max_faults: u8, sym_tags: bool) -> v::VWorker<Sink> {
-    let cap: usize = kani::any();
-    kani::assume(cap == 1 || cap == 2);
+/// `cap`, `vec` and `wfault` are fixed per harness (they select paths); line bytes, producer tags and flush
+/// failures are symbolic.
+pub fn setup(cap: usize, nlines: usize, lossy: bool, vec: [u8; MAXY], wfault: [bool; MAXL], flush_budget: u8) -> v::VWorker<Sink> {
     let m = m();
     m.cap = cap;
     m.lossy = lossy;
     m.nlines = nlines;
     m.vec = vec;
-    m.faults_left = max_faults;
+    m.wfault = wfault;
+    m.flush_budget = flush_budget;
     let mut i = 0;
     while i < MAXL {
         m.data[i] = kani::any();
-        let t: u8 = if sym_tags { kani::any() } else { (i % 2) as u8 };
+        let t: u8 = kani::any();
         kani::assume(t <= 1);
         m.tag[i] = t;
         i += 1;
@@ -330,6 +348,18 @@ pub fn check_end(worker: v::VWorker<Sink>, out: &Outcome) {
     }
 }
 
+/// Between two schedules of one harness: drop every handle of the finished one and start from a fresh state.
+pub fn teardown() {
+    unsafe {
+        PRODUCER[0] = None;
+        PRODUCER[1] = None;
+        GUARD = None;
+        COUNTER = None;
+        crossbeam_channel::__verif_reset();
+        M = FRESH;
+    }
+}
+
 fn vec_of(a: &[u8]) -> [u8; MAXY] {
     let mut v = [0u8; MAXY];
     let mut i = 0;
@@ -348,7 +378,7 @@ fn vec_of(a: &[u8]) -> [u8; MAXY] {
 #[kani::stub(std::rt::thread_cleanup, noop)]
 #[kani::stub(core::fmt::write, fmt_write_stub)]
 fn c15_reach() {
-    let mut w = setup(1, true, vec_of(&[1, 1]), 1, false);
+    let mut w = setup(1, 1, true, vec_of(&[1, 1]), [false; MAXL], 1);
     let out = drive(&mut w);
     if out.reported_shutdown && m().written == 1 {
         core::mem::forget(w);
@@ -363,8 +393,9 @@ fn c15_reach() {
 #[kani::stub(std::rt::thread_cleanup, noop)]
 #[kani::stub(core::fmt::write, fmt_write_stub)]
 fn c15_flush_fault_at_shutdown() {
-    let mut w = setup(1, true, vec_of(&[2]), 1, false);
+    let mut w = setup(2, 1, true, vec_of(&[2]), [false; MAXL], 1);
     let out = drive(&mut w);
+    kani::cover!(m().flush_failed == 1);
     assert!(out.reported_shutdown);
     core::mem::forget(w);
 }
